@@ -3,7 +3,10 @@ package ir
 import (
 	"go/ast"
 	"go/token"
+	"go/types"
+	"regexp"
 	"sort"
+	"strings"
 )
 
 // BExpr is a boolean formula over canonical atoms.
@@ -37,7 +40,17 @@ func (c *Canon) BoolOf(e ast.Expr) *BExpr {
 		case token.LOR:
 			return BOr(c.BoolOf(x.X), c.BoolOf(x.Y))
 		case token.NEQ:
+			if c.isBoolExpr(x.X) && c.isBoolExpr(x.Y) {
+				// a != b over booleans is exclusive or
+				a, b := c.BoolOf(x.X), c.BoolOf(x.Y)
+				return BOr(BAnd(a, BNot(b)), BAnd(BNot(a), b))
+			}
 			return BNot(BAtom(c.binary(token.EQL, c.Expr(x.X), c.Expr(x.Y), c.typeOf(x.X))))
+		case token.EQL:
+			if c.isBoolExpr(x.X) && c.isBoolExpr(x.Y) {
+				a, b := c.BoolOf(x.X), c.BoolOf(x.Y)
+				return BOr(BAnd(a, b), BAnd(BNot(a), BNot(b)))
+			}
 		}
 	case *ast.Ident:
 		if x.Name == "true" {
@@ -46,8 +59,160 @@ func (c *Canon) BoolOf(e ast.Expr) *BExpr {
 		if x.Name == "false" {
 			return BConst(false)
 		}
+		// a boolean local defined exactly once stands for its definition
+		if o := c.obj(x); o != nil && c.boolDefs != nil {
+			if def, ok := c.boolDefs[o]; ok && c.boolDepth < 8 {
+				c.boolDepth++
+				r := c.BoolOf(def)
+				c.boolDepth--
+				return r
+			}
+		}
+	case *ast.CallExpr:
+		if f := c.inlineBoolCall(x); f != nil {
+			return f
+		}
 	}
 	return BAtom(c.Expr(e))
+}
+
+func (c *Canon) isBoolExpr(e ast.Expr) bool {
+	t := c.typeOf(e)
+	if t == nil {
+		return false
+	}
+	b, ok := t.Underlying().(*types.Basic)
+	return ok && b.Info()&types.IsBoolean != 0
+}
+
+// collectBoolDefs records `x := e` / `var x = e` definitions of boolean locals that are assigned
+// nowhere else in the function.
+func (c *Canon) collectBoolDefs(fd *ast.FuncDecl) {
+	c.boolDefs = map[types.Object]ast.Expr{}
+	if fd.Body == nil {
+		return
+	}
+	ast.Inspect(fd.Body, func(n ast.Node) bool {
+		switch x := n.(type) {
+		case *ast.FuncLit:
+			return false
+		case *ast.AssignStmt:
+			if x.Tok != token.DEFINE || len(x.Lhs) != len(x.Rhs) {
+				return true
+			}
+			for i, l := range x.Lhs {
+				id, ok := l.(*ast.Ident)
+				if !ok {
+					continue
+				}
+				o := c.obj(id)
+				if o == nil || c.nAssign[o] > 1 || !c.isBoolExpr(x.Rhs[i]) {
+					continue
+				}
+				c.boolDefs[o] = x.Rhs[i]
+			}
+		case *ast.ValueSpec:
+			if len(x.Names) == len(x.Values) {
+				for i, id := range x.Names {
+					o := c.obj(id)
+					if o == nil || c.nAssign[o] > 1 || !c.isBoolExpr(x.Values[i]) {
+						continue
+					}
+					c.boolDefs[o] = x.Values[i]
+				}
+			}
+		}
+		return true
+	})
+}
+
+// inlineBoolCall replaces a call of a same-module boolean helper by the helper's own formula
+// with the arguments substituted for the parameters (Options.DeclOf resolves the callee). The
+// helper must lie in the if/return fragment BoolResult understands; otherwise the call stays an
+// atom.
+func (c *Canon) inlineBoolCall(call *ast.CallExpr) *BExpr {
+	if c.Opt.DeclOf == nil || c.inlineDepth >= 3 || call.Ellipsis.IsValid() {
+		return nil
+	}
+	var fn *types.Func
+	var recv ast.Expr
+	switch f := call.Fun.(type) {
+	case *ast.Ident:
+		fn, _ = c.obj(f).(*types.Func)
+	case *ast.SelectorExpr:
+		if sel := c.Info.Selections[f]; sel != nil {
+			fn, _ = sel.Obj().(*types.Func)
+			recv = f.X
+		} else {
+			fn, _ = c.Info.Uses[f.Sel].(*types.Func)
+		}
+	}
+	if fn == nil || fn.Exported() {
+		// exported predicates (IsColMajor, RequiresIterator, …) are the vocabulary of the rules
+		return nil
+	}
+	sig := fn.Type().(*types.Signature)
+	if sig.Results().Len() != 1 || sig.Variadic() {
+		return nil
+	}
+	if b, ok := sig.Results().At(0).Type().Underlying().(*types.Basic); !ok || b.Info()&types.IsBoolean == 0 {
+		return nil
+	}
+	fd, info := c.Opt.DeclOf(fn)
+	if fd == nil || fd.Body == nil || info == nil {
+		return nil
+	}
+	sub := NewCanon(c.Fset, info, Options{ParamNames: true, KeepNames: true, DeclOf: c.Opt.DeclOf, PureCall: c.Opt.PureCall})
+	sub.inlineDepth = c.inlineDepth + 1
+	f, ok := sub.BoolResult(fd, "")
+	if !ok {
+		return nil
+	}
+	// parameter -> argument text
+	repl := map[string]string{}
+	i := 0
+	if fd.Type.Params != nil {
+		for _, fl := range fd.Type.Params.List {
+			for _, nm := range fl.Names {
+				if i < len(call.Args) {
+					repl["$"+nm.Name] = c.Expr(call.Args[i])
+				}
+				i++
+			}
+		}
+	}
+	if fd.Recv != nil && recv != nil {
+		repl["$r"] = c.Expr(recv)
+	}
+	// every atom must be expressible in the caller's terms: only parameters, receiver, constants
+	for _, a := range f.Atoms() {
+		if strings.Contains(a, "%") {
+			return nil // a local of the helper survives in the formula
+		}
+	}
+	return mapAtoms(f, func(a string) string {
+		return paramTok.ReplaceAllStringFunc(a, func(t string) string {
+			if v, ok := repl[t]; ok {
+				return v
+			}
+			return t
+		})
+	})
+}
+
+var paramTok = regexp.MustCompile(`\$\w+`)
+
+func mapAtoms(b *BExpr, f func(string) string) *BExpr {
+	if b == nil {
+		return nil
+	}
+	switch b.Op {
+	case "atom":
+		return BAtom(f(b.Atom))
+	case "const":
+		return b
+	}
+	return &BExpr{Op: b.Op, L: mapAtoms(b.L, f), R: mapAtoms(b.R, f)}
 }
 
 func (b *BExpr) Atoms() []string {
@@ -116,6 +281,7 @@ func (b *BExpr) String() string {
 // ok=false when the body uses a construct outside this fragment.
 func (c *Canon) BoolResult(fd *ast.FuncDecl, target string) (*BExpr, bool) {
 	c.Stmts(fd, nil) // bind names
+	c.collectBoolDefs(fd)
 	ok := true
 	var result *BExpr = BConst(false)
 	var walk func(list []ast.Stmt, path *BExpr) (cont *BExpr)
@@ -246,6 +412,15 @@ func ParseBool(s string) *BExpr {
 		for _, op := range []string{" >= ", " > ", " == ", " != "} {
 			if parts := splitTop(in, op); len(parts) == 2 {
 				l, r := parts[0], parts[1]
+				if (op == " == " || op == " != ") && looksBoolean(l) && looksBoolean(r) {
+					// equality of two predicates is (not) exclusive or
+					a, b := ParseBool(l), ParseBool(r)
+					xor := BOr(BAnd(a, BNot(b)), BAnd(BNot(a), b))
+					if op == " != " {
+						return xor
+					}
+					return BNot(xor)
+				}
 				switch op {
 				case " >= ":
 					return BAtom("(" + l + " >= " + r + ")")
@@ -362,4 +537,13 @@ func PathFormulas(p Path) []*BExpr {
 		out = append(out, ParseBool(g))
 	}
 	return out
+}
+
+var predicateCall = regexp.MustCompile(`\.(Is|Has|Requires)[A-Za-z]*\([^()]*(\([^()]*\)[^()]*)*\)$`)
+
+// looksBoolean: the operand of an (in)equality is itself a predicate (a negation, or a call of
+// an Is…/Has…/Requires… method).
+func looksBoolean(s string) bool {
+	s = trimSpace(s)
+	return strings.HasPrefix(s, "!") || predicateCall.MatchString(s) || s == "true" || s == "false"
 }
